@@ -14,6 +14,7 @@ Real-code driver + oracle + correspondence with the Lean model of the instance c
   histories with alternating precisions and tensor shapes on one shared object against fresh
   objects; the MFT's `matrices_dtype` memo state is compared with the model's memo cell.
 """
+import json
 import numpy as np
 
 from harness.common import MachineryError
@@ -851,7 +852,46 @@ def fourier_objects():
         return hp.Field(np.exp(-0.5j * (grid.x**2 + grid.y**2)) / (1 + 0.125 * grid.x**2), grid)
     O['FourierFilter q2'] = lambda: hp.FourierFilter(P, tf, 2)
     O['FourierFilter q1'] = lambda: hp.FourierFilter(P2, tf, 1)
-    return O
+    # per-axis oversampling / field of view (slit-like Fourier planes: more samples than the input along one axis, fewer
+    # along the other), both shift implementations
+    for em in (False, True):
+        O[gen_fft_name([8, 8], [2, 2], [0.25, 1], em)] = None
+        O[gen_fft_name([8, 8], [1, 4], [0.5, 0.5], em)] = None
+        O[gen_fft_name([6, 9], [3, 1], [1, 0.5], em)] = None
+    return _FourierObjects(O)
+
+
+def gen_fft_name(dims, q, fov, em):
+    js = lambda v: json.dumps(list(v), separators=(',', ':'))
+    return 'FFT gen dims=%s q=%s fov=%s emulate=%d' % (js(dims), js(q), js(fov), int(em))
+
+
+class _FourierObjects(dict):
+    """Constructors by name; a name produced by gen_fft_name carries its own parameters (so a replay file needs no table)."""
+
+    def __getitem__(self, name):
+        if name.startswith('FFT gen '):
+            return lambda: self.build(name)
+        return dict.__getitem__(self, name)
+
+    @staticmethod
+    def build(name):
+        import hcipy as hp
+        kv = dict(t.split('=', 1) for t in name.split(' ')[2:])
+        dims, q, fov = json.loads(kv['dims']), json.loads(kv['q']), json.loads(kv['fov'])
+        grid = hp.make_pupil_grid(dims, [1.0, 1.0 * dims[1] / dims[0]]).shifted([0.0, 0.125])
+        return hp.FastFourierTransform(grid, q, fov, 0, bool(int(kv['emulate'])))
+
+
+def random_fft_names(rng, n):
+    qs, fovs = [1, 2, 3, 4, 1.5], [1, 0.5, 0.25, 0.75]
+    out = []
+    for _ in range(n):
+        dims = [int(rng.integers(3, 9)), int(rng.integers(3, 9))]
+        q = [qs[int(rng.integers(0, len(qs)))] for _ in range(2)]
+        fov = [fovs[int(rng.integers(0, len(fovs)))] for _ in range(2)]
+        out.append(gen_fft_name(dims, q, fov, bool(rng.integers(0, 2))))
+    return out
 
 
 FDT = ['complex128', 'complex64', 'float64', 'float32']
@@ -1725,8 +1765,9 @@ def run(ctx):
     memo_lines = []
     memo_expect = []
     watchers = []
-    for name in O:
-        for j in range(nf):
+    names = list(O) + random_fft_names(ctx.rng, ctx.scale(12, 150))
+    for name in names:
+        for j in range(nf if not name.startswith('FFT gen ') else max(2, nf // 3)):
             n = int(ctx.rng.integers(3, 10))
             ops = [[int(ctx.rng.integers(0, 2)), str(ctx.rng.choice(FDT)), list(FTS[int(ctx.rng.integers(0, len(FTS)))]),
                     int(ctx.rng.integers(0, 1 << 30))] for _ in range(n)]
